@@ -80,6 +80,23 @@ def correspond(ctx):
                 idx = int("".join(map(str, bits)), 2)  # site 0 most significant in the dense vector
                 total += pr
                 impl.append((key, pr, float(born[idx]), [float(abs(np.sum(p) - 1)) for p in sr.ps]))
+                if k % 2 == 0:
+                    # the public one-shot entry point (what a noisy weak trajectory calls): same chain, same basis, one count
+                    sr2 = Scripted(bits)
+                    real_rng = np.random.default_rng
+                    np.random.default_rng = lambda *a, **kw: sr2
+                    try:
+                        res = mps.measure_shots(1, basis=basis)
+                    except Exception as e:  # noqa: BLE001
+                        res = f"{type(e).__name__}: {e}"
+                    finally:
+                        np.random.default_rng = real_rng
+                    pr2 = float(np.prod([p[b] for p, b in zip(sr2.ps, bits)])) if len(sr2.ps) == L else float("nan")
+                    ctx.count("one_shot_entry_" + basis)
+                    if res != {key: 1} or not abs(pr2 - pr) <= 1e-12:
+                        ctx.violation("one-shot", f"measure_shots(1, basis='{basis}') with the outcome string {list(bits)} forced returns {res} with chain probability "
+                                      f"{pr2:.10f}; measure_single_shot('{basis}') gives key {key} with probability {pr:.10f} (Born {float(born[idx]):.10f})",
+                                      {"oracle": "one-shot", "seed": seed, "L": L, "basis": basis, "bits": list(bits), "real": real})
                 exprs.append(f"encode {g_list([str(b) + '%nat' for b in bits])}")
                 cases.append(dict(seed=seed, L=L, basis=basis, bits=list(bits), bond=max(t.shape[2] for t in mps.tensors), real=real))
     wide_correspondence(ctx)
@@ -257,6 +274,13 @@ def weak_oracle(args):
 
 
 def search(ctx):
+    for basis in ("X", "Y"):
+        a = dict(L=3, basis=basis, shots=4)
+        why = pool_shots_oracle(a)
+        ctx.case(nontrivial_key=("pool-shots", basis))
+        ctx.count("pool_shots")
+        if why:
+            ctx.violation("pool-shots", why, {"oracle": "pool-shots", "args": a})
     for k in range(ctx.scale(30, 500)):
         L = int(ctx.rng.integers(1, 5))
         a = dict(seed=int(ctx.rng.integers(0, 2**31)), L=L, chi=int(ctx.rng.integers(1, 5)), site=int(ctx.rng.integers(0, L)), basis=str(ctx.rng.choice(["Z", "X", "Y"])))
@@ -290,8 +314,43 @@ def search(ctx):
             ctx.violation("weak", why, {"oracle": "weak", "args": a})
 
 
+def one_shot_oracle(rp):
+    mps = branch_state(rp["seed"], rp["L"], rp["real"])
+    bits, basis = rp["bits"], rp["basis"]
+    sr = Scripted(bits)
+    key = mps.measure_single_shot(basis, rng=sr)
+    pr = float(np.prod([p[b] for p, b in zip(sr.ps, bits)]))
+    sr2 = Scripted(bits)
+    real_rng = np.random.default_rng
+    np.random.default_rng = lambda *a, **kw: sr2
+    try:
+        res = mps.measure_shots(1, basis=basis)
+    finally:
+        np.random.default_rng = real_rng
+    pr2 = float(np.prod([p[b] for p, b in zip(sr2.ps, bits)]))
+    if res != {key: 1} or abs(pr2 - pr) > 1e-12:
+        return f"measure_shots(1, basis='{basis}') returns {res} with chain probability {pr2:.10f}; measure_single_shot gives key {key}, probability {pr:.10f}"
+    return None
+
+
+def pool_shots_oracle(args):
+    """several shots (worker processes) in the X and Y bases on eigenstates of those bases: one certain outcome"""
+    from mqt.yaqs.core.data_structures.networks import MPS
+
+    L, basis = args["L"], args["basis"]
+    mps = MPS(L, state={"X": "x+", "Y": "y+", "Z": "zeros"}[basis])
+    res = mps.measure_shots(args["shots"], basis=basis)
+    if res != {0: args["shots"]}:
+        return f"measure_shots({args['shots']}, basis='{basis}') on the all-plus eigenstate of that basis returns {res}, the only possible outcome is key 0"
+    return None
+
+
 def replay(ctx, data):
     rp = data.get("replay", data)
+    if rp.get("oracle") == "one-shot":
+        return one_shot_oracle(rp)
+    if rp.get("oracle") == "pool-shots":
+        return pool_shots_oracle(rp["args"])
     if rp.get("oracle") == "measure":
         return measure_oracle(rp["args"])
     if rp.get("oracle") == "weak":
